@@ -1,6 +1,6 @@
 #!/bin/bash
 # run every registered check (quick by default) and summarise: id exit seconds last-line
-cd /verif
+cd "$(dirname "$0")/.."
 tier=${1:-quick}
 for p in $(python3 -c "import json; print(' '.join(c['property_id'] for c in json.load(open('MANIFEST.json'))['checks']))"); do
   s=$(date +%s); out=$(./check $p --tier $tier 2>&1); rc=$?; e=$(date +%s)
